@@ -305,10 +305,18 @@ func getTokenEnv() *tokenEnv {
 		e.K1 = []byte("verif_named_key_k1_32_bytes_long")
 		_ = os.WriteFile(e.PoolKeyFile, scramble(e.PoolKey), 0o600)
 		_ = os.WriteFile(filepath.Join(e.KeyDir, "k1"), scramble(e.K1), 0o600)
+		// named keys whose length is not a multiple of 4 (key files are arbitrary byte strings)
+		_ = os.WriteFile(filepath.Join(e.KeyDir, "k33"), scramble([]byte(c11Key33)), 0o600)
+		_ = os.WriteFile(filepath.Join(e.KeyDir, "k6"), scramble([]byte(c11Key6)), 0o600)
 		tokEnv = e
 	})
 	return tokEnv
 }
+
+const (
+	c11Key33 = "verif_named_key_of_33_bytes_long!"
+	c11Key6  = "sixkey"
+)
 
 func verifDir() string {
 	if d := os.Getenv("VERIF_DIR"); d != "" {
